@@ -169,10 +169,10 @@ PROPS = {
         level_text="The product of service names, addresses, ports, urlprefix forms, every <=2-subset of 22 option strings and 17 extra-tag shapes (quotes, backslashes, non-ASCII, newlines, commas, injected commands), with prometheus and statsd_raw metrics providers installed, is turned into route commands by the real routecmd.build next to a well-formed neighbour and fed to the real route.NewTable: the text must be accepted, the neighbour present, an expressible entry denoted exactly, an inexpressible one absent.",
         level_note="Expressibility is decided by an independent predicate (name without white space, finite numeric weight, no double quote/newline in tags or options). Tags containing a comma or surrounding white space, and a redirect option without URL, are left open.",
         units=[
-        unit("c14", "registry/consul", ["consul/c14_test.go"], "^TestVerifC14Reg"),
+        unit("c14", "registry/consul", ["consul/c14_test.go", "consul/c14_watch_test.go"], "^TestVerifC14Reg"),
         unit("c14-sched", "registry/consul", ["consul/c14_test.go", "consul/c14_sched_test.go"], "^TestVerifC14Sched", engines=SCHED + ["vhook"], race=True, sched_env={"GOMAXPROCS": "1"}, shards={"quick": 2, "thorough": 8},
              rewrite=[{"files": ["registry/consul/service.go"], "opts": ["-go", "-chan", "-stmt", "-sortrange=m", "-only", "makeConfig,serviceConfig", "-sel", "time.Sleep=vhook.Sleep"]}, {"files": ["registry/consul/routecmd.go"], "opts": ["-stmt", "-only", "build", "-sel", "time.Sleep=vhook.Sleep"]}]),
-    ], layers={"quick": ["c14-registrations", "c14-multi", "c14-sched"], "thorough": ["c14-registrations", "c14-multi", "c14-sched"]}),
+    ], layers={"quick": ["c14-registrations", "c14-multi", "c14-watch", "c14-sched"], "thorough": ["c14-registrations", "c14-multi", "c14-watch", "c14-sched"]}),
     "C01": dict(level="model_checking", engine="xstate",
         technique="explicit-state BFS over registry histories through the real consul watchers + watchBackend against a fake Consul HTTP API; bounded-exhaustive check sequences for the health rule",
         level_text="(health rule) every sequence of up to 3 (thorough 4) health checks over 28 check shapes x tagged/untagged x strict/non-strict x 4 accepted-status lists through the real checksWithTagPrefix + passingServices against an independent predicate. (configuration step) every set of 1..3 instances of one service over dotted node names and service ids x every pass/fail assignment through the real makeConfig against a fake catalog. (pipeline) breadth-first exploration of registry histories (depth 2 quick, 3 thorough, state de-duplicated) through the real backend, watchers, watchBackend and table installation, with causal quiescence detection; every state compares the active table with the reference.",
@@ -217,7 +217,7 @@ PROPS = {
 
 LAYER_UNIT = {"c06-sched": "c06", "c03-select": "c03", "c03-lookuphost": "c03", "c04-add": "c04", "c04-weightcmd": "c04", "c04-cursor": "c04", "c05-commands": "c05",
               "c07-request": "c07", "c07-response": "c07", "c07-wire": "c07", "c07-history": "c07", "c08-headers": "c08", "c08-websocket": "c08", "c09-tunnels": "c09", "c09-proxyline": "c09-sockets", "c09-websocket": "c09-ws",
-              "c10-sni": "c10", "c12-rules": "c12-rules", "c13-inputs": "c13", "c13-sched": "c13", "c14-registrations": "c14", "c14-multi": "c14", "c15-sources": "c15-config",
+              "c10-sni": "c10", "c12-rules": "c12-rules", "c13-inputs": "c13", "c13-sched": "c13", "c14-registrations": "c14", "c14-multi": "c14", "c14-watch": "c14", "c15-sources": "c15-config",
               "c15-robust": "c15-config", "c15-junk": "c15-config", "c16-calls": "c16", "c16-history": "c16", "c19-config": "c19", "c19-behaviour": "c19", "c19-history": "c19", "c20-fields": "c20-logger", "c20-e2e": "c20-formatters",
               "c20-formats": "c20-logger", "c20-history": "c20-logger", "c20-atoi": "c20-logger", "c01-health": "c01-health", "c01-config": "c01-health", "c11-publish": "c11-select", "c11-issue": "c11-sched"}
 
